@@ -213,6 +213,21 @@ async fn run_case(dir: PathBuf, ops: Vec<String>) -> Vec<String> {
                                 "unsubscribe_async" => res_str(wb.unsubscribe_async(t[3].parse().expect("tid")).await, |tid| format!("tid:{tid}")),
                                 "unsubls" => res_str(wb.unsubscribe_ls(t[3].parse().expect("tid")).await, |_| "ok".into()),
                                 "unsubls_async" => res_str(wb.unsubscribe_ls_async(t[3].parse().expect("tid")).await, |tid| format!("tid:{tid}")),
+                                "cset_async" => res_str(wb.cset_generic_async(a(3), json_of(t[4]), t[5].parse().expect("ver")).await, |tid| format!("tid:{tid}")),
+                                "spubinit_async" => res_str(wb.spub_init_async(a(3)).await, |tid| format!("tid:{tid}")),
+                                "spub_async" => res_str(wb.spub_generic_async(t[3].parse().expect("tid"), json_of(t[4])).await, |tid| format!("tid:{tid}")),
+                                "publish_async" => res_str(wb.publish_generic_async(a(3), json_of(t[4])).await, |tid| format!("tid:{tid}")),
+                                "cget_async" => res_str(wb.cget_async(a(3)).await, |tid| format!("tid:{tid}")),
+                                "pget_async" => res_str(wb.pget_async(a(3)).await, |tid| format!("tid:{tid}")),
+                                "delete_async" => res_str(wb.delete_async(a(3)).await, |tid| format!("tid:{tid}")),
+                                "pdelete_async" => res_str(wb.pdelete_async(a(3), t[4] == "1").await, |tid| format!("tid:{tid}")),
+                                "ls_async" => res_str(wb.ls_async(opt(3)).await, |tid| format!("tid:{tid}")),
+                                "pls_async" => res_str(wb.pls_async(opt(3)).await, |tid| format!("tid:{tid}")),
+                                "subscribe_async" => res_str(wb.subscribe_async(a(3), t[4] == "1", t[5] == "1").await, |tid| format!("tid:{tid}")),
+                                "psubscribe_async" => res_str(wb.psubscribe_async(a(3), t[4] == "1", t[5] == "1", None).await, |tid| format!("tid:{tid}")),
+                                "subls_async" => res_str(wb.subscribe_ls_async(opt(3)).await, |tid| format!("tid:{tid}")),
+                                "lock_async" => res_str(wb.lock_async(a(3)).await, |tid| format!("tid:{tid}")),
+                                "release_async" => res_str(wb.release_lock_async(a(3)).await, |tid| format!("tid:{tid}")),
                                 other => panic!("unknown call {other}"),
                             }
                         };
@@ -320,8 +335,13 @@ async fn run_case(dir: PathBuf, ops: Vec<String>) -> Vec<String> {
                 let start = tokio::time::Instant::now();
                 loop {
                     tokio::time::sleep(Duration::from_millis(if t[0] == "later" || t[0] == "lburst" { 1 } else { 12 })).await;
-                    let now = log.lock().expect("log").len();
-                    if now == last || start.elapsed() > Duration::from_millis(1500) || t[0] == "later" || t[0] == "lburst" {
+                    // a fire-and-forget call returns before its message is written: wait for that message first
+                    let want_c = t[0] == "call" && t[2].ends_with("_async");
+                    let (now, sent) = {
+                        let l = log.lock().expect("log");
+                        (l.len(), !want_c || l[seen..].iter().any(|(c, d, _)| *d == 'C' && Some(*c) == t[1].parse::<usize>().ok()))
+                    };
+                    if (now == last && sent) || start.elapsed() > Duration::from_millis(1500) || t[0] == "later" || t[0] == "lburst" {
                         break;
                     }
                     last = now;
